@@ -833,7 +833,10 @@ struct afield {
 	const char *val;	/* constant written in the expression */
 	const char *line[7];	/* lines whose value is constant-3 .. constant+3; NULL: no such value */
 	int ordered;		/* ordering operators meaningful */
+	int printed;		/* the line's value is what the library prints for the specifier (dconv -f SPEC),
+				 * read at run time; the lines are then in no particular order */
 };
+#define YLINES	{"2012-12-31", "2014-12-31", "2015-06-14", "2016-06-14", "2018-12-31", "2024-12-30", "2025-06-14"}
 static const struct afield afields[] = {
 	{"%Y", "numeric specifier", "%Y", "2012", {"2009-03-14", "2010-03-14", "2011-03-14", "2012-03-14", "2013-03-14", "2014-03-14", "2015-03-14"}, 1},
 	{"%m", "numeric specifier", "%m", "6", {"2012-03-14", "2012-04-14", "2012-05-14", "2012-06-14", "2012-07-14", "2012-08-14", "2012-09-14"}, 1},
@@ -848,6 +851,13 @@ static const struct afield afields[] = {
 	{"date", "date bound", "", "2012-03-16", {"2012-03-13", "2012-03-14", "2012-03-15", "2012-03-16", "2012-03-17", "2012-03-18", "2012-03-19"}, 1},
 	{"time", "time bound", "", "12:00:00", {"2012-03-16T11:59:57", "2012-03-16T11:59:58", "2012-03-16T11:59:59", "2012-03-16T12:00:00", "2012-03-16T12:00:01", "2012-03-16T12:00:02", "2012-03-16T12:00:03"}, 1},
 	{"date-time", "date-time bound", "", "2012-03-16T12:00:00", {"2012-03-16T11:59:57", "2012-03-16T11:59:58", "2012-03-16T11:59:59", "2012-03-16T12:00:00", "2012-03-16T12:00:01", "2012-03-16T12:00:02", "2012-03-16T12:00:03"}, 1},
+	/* abbreviated years: calendar year and year of the ISO week date, two digits and (%_) one digit; the lines mix days whose
+	 * ISO year is the next calendar year (2012-12-31, 2014-12-31, 2018-12-31, 2024-12-30) with mid-year days */
+	{"%y", "two-digit year specifier", "%y", "15", YLINES, 1, 1},
+	{"%g", "two-digit year specifier", "%g", "15", YLINES, 1, 1},
+	{"%_y", "one-digit year specifier", "%_y", "5", YLINES, 1, 1},
+	{"%_g", "one-digit year specifier", "%_g", "5", YLINES, 1, 1},
+	{"%G", "four-digit ISO year specifier", "%G", "2015", YLINES, 1, 1},
 };
 #define NAFIELD	((int)(sizeof(afields) / sizeof(*afields)))
 /* operators: text, relation as truth for (below, at, above) in bits 0..2 */
@@ -903,6 +913,21 @@ do_atom(int fi, int oi, int neg, int replay)
 	for (int i = 0; i < 7; i++) {
 		if (a->line[i]) {
 			snprintf(lines[nl], sizeof(lines[nl]), "%s", a->line[i]);
+			if (a->printed) {
+				/* what dconv -f SPEC prints for the line, minus the constant */
+				char pb[32] = "";
+				struct dt_dt_s v = dt_strpdt(a->line[i], NULL, NULL);
+				int dd;
+				dt_strfdt(pb, sizeof(pb), a->lhs, v);
+				if (pb[0] < '0' || pb[0] > '9') {
+					fprintf(stderr, "c17: '%s' printed with %s gives '%s'\n", a->line[i], a->lhs, pb);
+					exit(3);
+				}
+				dd = atoi(pb) - atoi(a->val);
+				dist[nl++] = dd < -3 ? -3 : dd > 3 ? 3 : dd;
+				ck += (size_t)snprintf(cmd + ck, sizeof(cmd) - ck, " %s", a->line[i]);
+				continue;
+			}
 			dist[nl++] = i - 3;
 			ck += (size_t)snprintf(cmd + ck, sizeof(cmd) - ck, " %s", a->line[i]);
 		}
@@ -939,6 +964,10 @@ do_atom(int fi, int oi, int neg, int replay)
 			/* the distance is a coordinate of its own: a defect at one distance only (a sentinel
 			 * value of the comparison) is not a defect of the whole operator */
 			snprintf(k2, sizeof(k2), "%s at distance %s%d", key, dist[i] > 0 ? "plus" : dist[i] < 0 ? "minus" : "", dist[i] < 0 ? -dist[i] : dist[i]);
+			if (a->printed) {
+				/* distances are clamped and unordered here: the operator is the coordinate */
+				snprintf(k2, sizeof(k2), "%s", key);
+			}
 			ex_viol(k2, (double)fi, cas, cmd, "'%s' on line '%s' (value = constant %+d): %s, but %s(line's value %s constant) is %s",
 				expr, lines[i], dist[i], (r.sel >> i) & 1U ? "selected" : "not selected", neg ? "not " : "", o->txt[0] ? o->txt : "=",
 				want ? "true" : "false");
@@ -1879,6 +1908,9 @@ main(int argc, char *argv[])
 		"self-checked on anchors) compared with the constant; a line that lacks the component (time-only line for a date atom, date-only line for a time atom) must "
 		"not be selected by = < <= > >= (!= skipped: not stated); a date constant against the same day carrying a time of day and date-time constants against lines "
 		"without a time are skipped (not stated). With -i the formats also read the expression's constants, as dgrep's main() arranges. "
+		"Abbreviated years (%%y %%g %%_y %%_g, and %%G) are judged against what the library prints for the same specifier (dconv -f SPEC) on days whose ISO year differs "
+		"from the calendar year and mid-year days. Weekday numbers follow the Sunday = 0 or 7 reading: dgrep's %%w/%%u atoms compare with 7 for a Sunday "
+		"(%%w=7 selects Sundays, %%w=0 selects nothing; dconv -f %%w prints 07), which is not judged. "
 		"Atom semantics: %d fields x %d operator spellings x plain/negated x lines at every distance -3..+3 from the constant, own keys (kind, operator, distance); "
 		"ordering operators on weekday/month names skipped (no order stated).", NAFIELD, NAOP);
 	ex_meta("bound", "trees with 1..%d leaves: %s (set A) + 1..4 leaves (set B) + 1..%d leaves (set C), x 2 renderings; blank-separated rendering up to 2 leaves; "
